@@ -410,7 +410,9 @@ def run_part(ctx):
               evaluations=tot["evaluations"] + tst["evaluations"], nontrivial=tot["nontrivial"],
               enc_frames_checked=tot["evaluations"], transport_sends=len(tspecs), transport_frames=n_frames)
     rule = (
-        "C02 input half: every message of the C01 generator plus non-ASCII value atoms is encoded by Codec.encode "
+        "C02 input half: every message of the C01 generator plus non-ASCII value atoms plus messages that cannot be "
+        "represented (framing tags 8/9/35/10 in the tag map at front/middle/end and inside group items, SOH in a "
+        "value, tag spellings int() accepts, empty values, empty MsgType) is encoded by Codec.encode "
         "and converted with .encode('utf-8') as send_msg does; the independent framer R1 must accept the bytes or "
         "the encoder must have raised; a small set is sent through a real endpoint (World1) and the bytes handed to "
         "the transport are judged the same way; non-trivial = non-ASCII value, non-default numbering mode or "
@@ -421,13 +423,20 @@ def run_part(ctx):
         "enc_cases_per_family": tot["families"], "enc_units": len(units),
         "enc_non_ascii_atoms": [a.encode("unicode_escape").decode() for a in gen.NON_ASCII_C02],
         "transport_messages": len(tspecs),
+        "enc_unrepresentable_classes": list(gen.UNREP_CLASSES),
+        "enc_tag_spellings": [t.encode("unicode_escape").decode() for t in gen.TAG_SPELLINGS],
     })
     for s in tot["samples"][:: max(1, len(tot["samples"]) // 3)][:3]:
         ctx.sample({"part": "enc", "spec": s})
     ctx.assumptions += [
         "C02 input half: well-formed messages as in C01 (DESIGN.md); text -> bytes exactly as "
         "AsyncFIXConnection.send_msg does (utf-8); an exception from encode or from the conversion counts as a refusal",
-        "C02 transport half: one fresh acceptor endpoint per message, clean logon, then one send_msg",
+        "C02 transport half: one fresh acceptor endpoint per message, clean logon, then one send_msg (or one "
+        "disconnect(logout_message=text))",
+        "unrepresentable messages: an exception while the message object is built, from encode or from send_msg "
+        "counts as the refusal; session counters are not judged here (C05); a frame R1 accepts is additionally "
+        "rejected when a tag has a leading zero, and - for a value containing SOH - when a piece of the value "
+        "arrives as a field of its own",
     ]
     return {"enc_cases": tot["n"], "transport_cases": len(tspecs)}
 
